@@ -243,10 +243,14 @@ func C17(e *core.Env) {
 			rcx.IncludeReportCreationTime = include
 			name := fmt.Sprintf("%s, IncludeReportCreationTime=%v", []string{"nil ValidationConfiguration", "ReportCreationTime() panics"}[ci], include)
 			vc := vc
-			o := guarded(limit, func() (string, error) { return pkg.ValidateWithConfiguration(PoolProfileMin, PoolDataBad, false, nil, vc, rcx) })
+			o := guarded(limit, func() (string, error) {
+				return pkg.ValidateWithConfiguration(PoolProfileMin, PoolDataBad, false, nil, vc, rcx)
+			})
 			check("ValidateWithConfiguration ("+name+")", PoolProfileMin, PoolDataBad, o)
 			if q := compiled["ok-min"]; q != nil {
-				o2 := guarded(limit, func() (string, error) { return pkg.ValidateCompiledWithConfiguration(q, PoolDataBad, false, nil, vc, rcx) })
+				o2 := guarded(limit, func() (string, error) {
+					return pkg.ValidateCompiledWithConfiguration(q, PoolDataBad, false, nil, vc, rcx)
+				})
 				check("ValidateCompiledWithConfiguration ("+name+")", PoolProfileMin, PoolDataBad, o2)
 				if !include && o2.kind != "value" {
 					res.Violate("impl-violates-property", "the creation time is not part of the report, yet the call fails because of the clock ("+name+"): "+core.Trunc(o2.text, 200),
@@ -439,7 +443,7 @@ func hashString(s string) uint64 {
 
 func C09(e *core.Env) {
 	res := e.Res
-	res.Rule = "cases = histories of 1..6 (quick) / 1..25 (thorough) documents through ONE compiled profile, drawn from a pool (passing, failing, several results, no nodes, undecodable, rejected by JSON-LD, starting with a byte order mark, surrounded by blanks, followed by trailing text, repeats, fail-then-pass), with compilations and text validations of OTHER profiles (re-declaring built-in prefixes, same names; in every fourth history 12 distinct other profiles at once) interleaved, under two report configurations (with / without creation time, same schema IRIs); documents with lexical source maps with / without a source-information node; every report / error is compared byte-wise (fixed clock) with the report a FRESH PROCESS makes from the profile text and that document, and with a text validation made AFTER the histories; a 10-validation profile compiled 6 (quick) / 40 (thorough) times WHILE 4 goroutines compile other profiles, each compilation compared with the text validation; " +
+	res.Rule = "cases = histories of 1..6 (quick) / 1..25 (thorough) documents through ONE compiled profile, drawn from a pool (passing, failing, several results, no nodes, undecodable, rejected by JSON-LD, starting with a byte order mark, surrounded by blanks, followed by trailing text, repeats, fail-then-pass), with compilations and text validations of OTHER profiles (re-declaring built-in prefixes, same names; in every fourth history 12 distinct other profiles at once) interleaved, under two report configurations (with / without creation time, same schema IRIs); documents with lexical source maps with / without a source-information node; every report / error is compared byte-wise (fixed clock) with the report a FRESH PROCESS makes from the profile text and that document, and with a text validation made AFTER the histories; a 30-validation profile compiled 16 (quick) / 60 (thorough) times WHILE 6 goroutines compile other profiles, each compilation compared with the text validation; " +
 		"non-trivial = the history contains two different documents and at least one failing call; distinct by (profile, history)"
 	rc := config.DefaultReportConfiguration()
 	coreProfile := `#%Validation Profile 1.0
@@ -651,12 +655,12 @@ validations:
 	}
 	// compiled WHILE other profiles are being compiled: the precompiled profile still equals its source
 	{
-		victim := c10Multi(10)
+		victim := c10Multi(30)
 		things := c10Datas()[2]
 		want := fresh(victim, things)
 		stop := make(chan struct{})
 		var wg sync.WaitGroup
-		for w := 0; w < 4; w++ {
+		for w := 0; w < 6; w++ {
 			wg.Add(1)
 			go func(w int) {
 				defer wg.Done()
@@ -671,18 +675,20 @@ validations:
 				}
 			}(w)
 		}
-		for round := 0; round < e.Pick(6, 40); round++ {
+		for round := 0; round < e.Pick(16, 60); round++ {
 			q, err := pkg.CompileProfile(victim, false, nil)
 			got := ""
 			if err != nil {
 				got = "error:" + err.Error()
 			} else {
-				o := guarded(30*time.Second, func() (string, error) { return pkg.ValidateCompiledWithConfiguration(q, things, false, nil, clockA, rc) })
+				o := guarded(30*time.Second, func() (string, error) {
+					return pkg.ValidateCompiledWithConfiguration(q, things, false, nil, clockA, rc)
+				})
 				got = o.kind + ":" + o.text
 			}
 			if got != want {
 				res.Violate("impl-violates-property", "a profile precompiled while other profiles are being compiled in the process reports differently from its source text",
-					map[string]any{"profile": victim, "document": things, "other_profiles_compiled_in_a_loop_by_4_goroutines": manyOthers[:3], "round": round,
+					map[string]any{"profile": victim, "document": things, "other_profiles_compiled_in_a_loop_by_6_goroutines": manyOthers[:3], "round": round,
 						"compiled_result": core.Trunc(got, 1500), "text_result": core.Trunc(want, 1500), "first_diff_line": firstDiff(want, got)})
 				break
 			}
